@@ -33,6 +33,7 @@ type Obligation struct {
 	WantSat    bool // vacuity/cover query: expected sat
 	Note       string
 	known      bool
+	Cases      []string
 }
 
 // Unit: the verification unit of one function (or one lemma): an SMT log shared by its obligations.
@@ -165,6 +166,7 @@ type State struct {
 	pendingHavoc []havocRec
 	volatile     []func(string) bool
 	volatileAll  bool
+	cases        []string // path conditions of the states joined at the most recent merge (exhaustive under pc)
 }
 
 func (s *State) clone() *State {
@@ -172,6 +174,7 @@ func (s *State) clone() *State {
 	n.pendingHavoc = append([]havocRec(nil), s.pendingHavoc...)
 	n.volatile = append([]func(string) bool(nil), s.volatile...)
 	n.volatileAll = s.volatileAll
+	n.cases = s.cases
 	n.locals = make(map[localKey]Value, len(s.locals))
 	for k, v := range s.locals {
 		n.locals[k] = v
@@ -295,7 +298,9 @@ func isFloat(t types.Type) bool {
 }
 
 // structIsFlat reports whether values of struct type t are modelled field-wise.
-func (fc *FuncCtx) structIsFlat(t types.Type) bool {
+func (fc *FuncCtx) structIsFlat(t types.Type) bool { return flatStruct(t) }
+
+func flatStruct(t types.Type) bool {
 	st, ok := t.Underlying().(*types.Struct)
 	if !ok {
 		return false
@@ -304,6 +309,27 @@ func (fc *FuncCtx) structIsFlat(t types.Type) bool {
 		return false
 	}
 	return st.NumFields() <= 40
+}
+
+// embeddedObject: a field of named flat struct type inside a heap object is modelled as an object of its own
+// type at a derived reference (so that &x.f is an ordinary pointer to it).
+func embeddedObject(ft types.Type) bool {
+	_, named := ft.(*types.Named)
+	return named && flatStruct(ft)
+}
+
+// derivedRef: the reference of the object embedded as field `field` in the object (of type owner) at ref.
+// Derived references are negative (never nil, never equal to an allocated reference) and injective per field.
+func (fc *FuncCtx) derivedRef(owner types.Type, field string, ref string) string {
+	fn := qsym("sub!" + typeKey(owner) + "." + field)
+	inv := qsym("subinv!" + typeKey(owner) + "." + field)
+	if !fc.u.declared[fn] {
+		fc.u.declared[fn] = true
+		fc.u.emit("(declare-fun " + fn + " (Int) Int)")
+		fc.u.emit("(declare-fun " + inv + " (Int) Int)")
+		fc.u.emit("(assert (forall ((r Int)) (! (and (< (" + fn + " r) 0) (= (" + inv + " (" + fn + " r)) r)) :pattern ((" + fn + " r)))))")
+	}
+	return "(" + fn + " " + ref + ")"
 }
 
 // ---------- integers ----------
@@ -673,7 +699,9 @@ func (fc *FuncCtx) loadAt(st *State, prefix string, idx, idxSorts []string, path
 			break
 		}
 		sv := SliceV{Elem: u.Elem()}
-		sv.Base = tSel(fc.compTerm(st, prefix+path+".base", arraySort(idxSorts, "Int")), idx...)
+		baseComp := fc.compTerm(st, prefix+path+".base", arraySort(idxSorts, "Int"))
+		fc.refAxiom(st, baseComp, len(idxSorts), idxSorts)
+		sv.Base = tSel(baseComp, idx...)
 		sv.Off = tSel(fc.compTerm(st, prefix+path+".off", arraySort(idxSorts, fc.intSort())), idx...)
 		sv.Len = tSel(fc.compTerm(st, prefix+path+".len", arraySort(idxSorts, fc.intSort())), idx...)
 		sv.Cap = tSel(fc.compTerm(st, prefix+path+".cap", arraySort(idxSorts, fc.intSort())), idx...)
@@ -690,13 +718,23 @@ func (fc *FuncCtx) loadAt(st *State, prefix string, idx, idxSorts []string, path
 		if fc.structIsFlat(t) {
 			sv := StructV{Typ: t}
 			for i := 0; i < u.NumFields(); i++ {
-				sv.Fields = append(sv.Fields, fc.loadAt(st, prefix, idx, idxSorts, path+"."+u.Field(i).Name(), u.Field(i).Type()))
+				ft := u.Field(i).Type()
+				if pre2, idx2, ok := fc.embedRedirect(prefix, idx, path, t, u.Field(i).Name(), ft); ok {
+					sv.Fields = append(sv.Fields, fc.loadAt(st, pre2, idx2, []string{"Int"}, "", ft))
+					continue
+				}
+				sv.Fields = append(sv.Fields, fc.loadAt(st, prefix, idx, idxSorts, path+"."+u.Field(i).Name(), ft))
 			}
 			return sv
 		}
 	}
 	s := fc.sortOf(t)
-	term := tSel(fc.compTerm(st, prefix+path, arraySort(idxSorts, s)), idx...)
+	comp := fc.compTerm(st, prefix+path, arraySort(idxSorts, s))
+	switch t.Underlying().(type) {
+	case *types.Pointer, *types.Map, *types.Chan:
+		fc.refAxiom(st, comp, len(idxSorts), idxSorts)
+	}
+	term := tSel(comp, idx...)
 	sc := Scalar{term, s, t}
 	if len(idx) > 0 {
 		needFacts := false
@@ -745,7 +783,12 @@ func (fc *FuncCtx) storeAt(st *State, prefix string, idx, idxSorts []string, pat
 				fc.unsupported("store of %T into struct location %s", v, t)
 			}
 			for i := 0; i < u.NumFields(); i++ {
-				fc.storeAt(st, prefix, idx, idxSorts, path+"."+u.Field(i).Name(), u.Field(i).Type(), sv.Fields[i])
+				ft := u.Field(i).Type()
+				if pre2, idx2, ok := fc.embedRedirect(prefix, idx, path, t, u.Field(i).Name(), ft); ok {
+					fc.storeAt(st, pre2, idx2, []string{"Int"}, "", ft, sv.Fields[i])
+					continue
+				}
+				fc.storeAt(st, prefix, idx, idxSorts, path+"."+u.Field(i).Name(), ft, sv.Fields[i])
 			}
 			return
 		}
@@ -999,4 +1042,41 @@ var _ = token.NoPos
 
 func (fc *FuncCtx) isPkgInit() bool {
 	return fc.fn != nil && fc.fn.Name() == "init" && fc.fn.Synthetic != ""
+}
+
+// embedRedirect: when loading/storing the whole value of an object of struct type `owner` (object components,
+// top level), its embedded named-struct fields live at derived references.
+func (fc *FuncCtx) embedRedirect(prefix string, idx []string, path string, owner types.Type, field string, ft types.Type) (string, []string, bool) {
+	if path != "" || len(idx) != 1 || !strings.HasPrefix(prefix, "O!") || !embeddedObject(ft) {
+		return "", nil, false
+	}
+	if _, named := owner.(*types.Named); !named {
+		return "", nil, false
+	}
+	return "O!" + typeKey(ft), []string{fc.derivedRef(owner, field, idx[0])}, true
+}
+
+// refAxiom: every reference stored in a heap snapshot was allocated before the snapshot was taken.
+// Emitted once per declared (not defined) component symbol, guarded by the path on which it is materialised.
+func (fc *FuncCtx) refAxiom(st *State, comp string, nidx int, idxSorts []string) {
+	if nidx != 1 {
+		// (a two-index axiom over element rows interacts badly with the array theory: use allocated(x) in contracts)
+		return
+	}
+	if !(strings.HasPrefix(comp, "H") || strings.HasPrefix(comp, "|H")) {
+		return
+	}
+	k := "refax:" + comp
+	if fc.u.declared[k] {
+		return
+	}
+	fc.u.declared[k] = true
+	a := fc.allocTerm(st)
+	var body string
+	if nidx == 1 {
+		body = "(forall ((r Int)) (! (and (<= 0 (select " + comp + " r)) (<= (select " + comp + " r) " + a + ")) :pattern ((select " + comp + " r))))"
+	} else {
+		body = "(forall ((r Int) (i " + idxSorts[1] + ")) (! (and (<= 0 (select (select " + comp + " r) i)) (<= (select (select " + comp + " r) i) " + a + ")) :pattern ((select (select " + comp + " r) i))))"
+	}
+	fc.u.emit("(assert " + tImp(st.pc, body) + ")")
 }
